@@ -16,14 +16,25 @@ theorem mem_dict_children {kvs : List (HVal × HVal)} {v : HVal} :
     · exact Or.inl ⟨kv, h, rfl⟩
     · exact Or.inr ⟨kv, h, rfl⟩
 
+theorem mem_foldl_setAddH {eq : HVal → HVal → Bool} : ∀ (xs acc : List HVal) (x : HVal),
+    x ∈ xs.foldl (setAddH eq) acc → x ∈ acc ∨ x ∈ xs
+  | [], _, _, h => Or.inl h
+  | y :: ys, acc, x, h => by
+    simp only [List.foldl_cons] at h
+    rcases mem_foldl_setAddH ys _ x h with h | h
+    · unfold setAddH at h
+      split at h
+      · exact Or.inl h
+      · simp only [List.mem_append, List.mem_singleton] at h
+        rcases h with h | h
+        · exact Or.inl h
+        · exact Or.inr (List.mem_cons.2 (Or.inl h))
+    · exact Or.inr (List.mem_cons_of_mem _ h)
+
 theorem mem_dedupH {eq : HVal → HVal → Bool} {xs : List HVal} {x : HVal} (h : x ∈ dedupH eq xs) : x ∈ xs := by
-  induction xs with
-  | nil => simp [dedupH] at h
-  | cons y ys ih =>
-    simp only [dedupH, List.mem_cons, List.mem_filter] at h
-    rcases h with h | h
-    · exact List.mem_cons.2 (Or.inl h)
-    · exact List.mem_cons_of_mem _ (ih h.1)
+  rcases mem_foldl_setAddH xs [] x h with h | h
+  · simp at h
+  · exact h
 
 theorem pairUp_mem : ∀ {ys : List HVal} {kv : HVal × HVal}, kv ∈ pairUp ys → kv.1 ∈ ys ∧ kv.2 ∈ ys
   | [], kv, h => by simp [pairUp] at h
